@@ -558,7 +558,11 @@ std::string desc_to_timbuk(const Desc& d, bool parens) {
 }
 static bool state_num(const std::string& s, const std::string& prefix, long& out) {
 	if (s.compare(0, prefix.size(), prefix) != 0 || s.size() == prefix.size()) return false;
-	char* e = nullptr; errno = 0; out = strtol(s.c_str() + prefix.size(), &e, 10); return *e == 0 && errno == 0 && out >= 0;
+	size_t at = prefix.size();
+	// a dump written without a state dictionary names states by their numbers; a decoration in front of the number ("q5") is tolerated
+	if (prefix.empty()) while (at < s.size() && !(s[at] >= '0' && s[at] <= '9')) ++at;
+	if (at == s.size()) return false;
+	char* e = nullptr; errno = 0; out = strtol(s.c_str() + at, &e, 10); return *e == 0 && errno == 0 && out >= 0;
 }
 bool desc_to_ta(const Desc& d, const std::string& prefix, TA& out) {
 	out = TA(); long v;
